@@ -1,6 +1,11 @@
 import OmplModel.Proofs.Soln
 import OmplModel.Proofs.RRTstar
 import OmplModel.Proofs.RRTstarInv
+import OmplModel.Proofs.RRTstarBest
+import Mathlib.Data.ENat.Basic
+import Mathlib.Tactic.Ring
+import Mathlib.Tactic.NormNum
+import Mathlib.Algebra.Order.Field.Basic
 /-!
 C04 — reported solution costs are truthful, admissible-bounded and only improve: the parts of the
 property that are statements about the problem definition's data structure (A) and about the cost
@@ -246,6 +251,118 @@ theorem combine_monotone_minimax {better : α → α → Bool} (hb : IsSWO bette
       simp_all
   · exact hb.irrefl c
 
+/-! ## Round 5: the reported best is a maximum; laws of the shipped objectives -/
+
+/-- (a) what `getSolutionPath` / `getSolution` / `hasApproximateSolution` / `hasOptimizedSolution` /
+`getSolutionDifference` hand out after ANY sequence of `addSolutionPath` on a homogeneous multiset: a maximum of the
+coded strict weak order (nothing added ranks strictly before it), and the accessors are that solution's fields. -/
+theorem reported_best_is_maximum {o : Cmp α} (hl : IsSWO o.lt) (hb : IsSWO o.better) (h : Bool) (minusOne : α)
+    (xs : List (Soln α)) (hx : Homog h xs) (t : Soln α) (ht : SolnSet.top (SolnSet.addAll o [] xs) = some t) :
+    (∀ x ∈ SolnSet.addAll o [] xs, Soln.lt o x t = false) ∧
+    (∃ x ∈ stamp 0 xs, x = t) ∧
+    SolnSet.isApproximate (SolnSet.addAll o [] xs) = t.approx ∧
+    SolnSet.isOptimized (SolnSet.addAll o [] xs) = t.optimized ∧
+    SolnSet.getDifference minusOne (SolnSet.addAll o [] xs) = t.diff := by
+  have hacc := (accessors_mirror_top minusOne (SolnSet.addAll o [] xs)).2 t ht
+  refine ⟨fun x hx' => (top_best hl hb h xs hx t ht x hx').1, ?_, hacc.1, hacc.2.1, hacc.2.2.1⟩
+  have hperm := (add_sorted_perm hl hb h xs hx).1
+  have hmem : t ∈ SolnSet.addAll o [] xs := by
+    cases hs : SolnSet.addAll o [] xs with
+    | nil => rw [hs] at ht; simp [SolnSet.top] at ht
+    | cons a l => rw [hs] at ht; simp [SolnSet.top] at ht; simp [ht]
+  exact ⟨t, hperm.mem_iff.mp hmem, rfl⟩
+
+example : (SolnSet.top (SolnSet.addAll (cmpMin (α := Int)) [] [⟨-1, true, 5, false, true, 1, 1⟩, ⟨-1, false, 0, false, true, 3, 3⟩])).map
+    (·.idx) = some 1 := by decide
+
+section ObjectiveLaws
+
+/-- (b) the default algebra (`identityCost = 0`, `combineCosts = +`): a commutative monoid, as the planners assume when
+they accumulate costs along a path in any association order. -/
+theorem additive_monoid_laws [AddCommMonoid α] (better : α → α → Bool) (a b c : α) :
+    (mkAdditive (0 : α) (· + ·) better).combine (mkAdditive (0 : α) (· + ·) better).identity a = a ∧
+    (mkAdditive (0 : α) (· + ·) better).combine a (mkAdditive (0 : α) (· + ·) better).identity = a ∧
+    (mkAdditive (0 : α) (· + ·) better).combine ((mkAdditive (0 : α) (· + ·) better).combine a b) c =
+      (mkAdditive (0 : α) (· + ·) better).combine a ((mkAdditive (0 : α) (· + ·) better).combine b c) ∧
+    (mkAdditive (0 : α) (· + ·) better).combine a b = (mkAdditive (0 : α) (· + ·) better).combine b a := by
+  simp only [mkAdditive]
+  exact ⟨zero_add a, add_zero a, add_assoc a b c, add_comm a b⟩
+
+/-- `MinimaxObjective::combineCosts` with `isCostBetterThan = <` is `max` (associative, commutative, idempotent;
+`identity` is neutral when it is the least cost). -/
+theorem minimax_combine_eq_max [LinearOrder α] (ident a b c : α) :
+    (mkMinimax ident (fun x y => decide (x < y))).combine a b = max a b ∧
+    (mkMinimax ident (fun x y => decide (x < y))).combine ((mkMinimax ident (fun x y => decide (x < y))).combine a b) c =
+      (mkMinimax ident (fun x y => decide (x < y))).combine a ((mkMinimax ident (fun x y => decide (x < y))).combine b c) ∧
+    ((∀ x, ident ≤ x) → (mkMinimax ident (fun x y => decide (x < y))).combine ident a = a ∧
+      (mkMinimax ident (fun x y => decide (x < y))).combine a ident = a) := by
+  have key : ∀ x y : α, (mkMinimax ident (fun x y => decide (x < y))).combine x y = max x y := by
+    intro x y
+    simp only [mkMinimax, decide_eq_true_eq]
+    split
+    · rename_i h; exact (max_eq_right (le_of_lt h)).symm
+    · rename_i h; exact (max_eq_left (not_lt.mp h)).symm
+  refine ⟨key a b, by rw [key, key, key, key, max_assoc], fun hid => ?_⟩
+  rw [key, key]
+  exact ⟨max_eq_right (hid a), max_eq_left (hid a)⟩
+
+/-- `MaximizeMinClearanceObjective` (`isCostBetterThan = >`, Minimax's `combineCosts`): `min`. -/
+theorem clearance_combine_eq_min [LinearOrder α] (ident a b : α) :
+    (mkMinimax ident (fun x y => decide (y < x))).combine a b = min a b := by
+  simp only [mkMinimax, decide_eq_true_eq]
+  split
+  · rename_i h; exact (min_eq_right (le_of_lt h)).symm
+  · rename_i h; exact (min_eq_left (not_lt.mp h)).symm
+
+/-- the objectives' arithmetic over an ordered field (`sqrt`, `ceil`, `±inf` are not used by the theorems below). -/
+@[reducible] def fieldNum (α : Type) [Field α] [LinearOrder α] : Num α :=
+  { zero := 0, one := 1, half := 1 / 2, inf := 0, negInf := 0, lt := fun a b => decide (a < b), sqrt := id,
+    ofNat := fun n => (n : α), ceilNat := fun _ => 0 }
+
+/-- `StateCostIntegralObjective::trapezoid` is `dist * (c1 + c2) / 2` and non-negative for non-negative state costs and
+distance (`integral_cost_nonneg`, left undone since round 1). -/
+theorem integral_cost_nonneg [Field α] [LinearOrder α] [IsStrictOrderedRing α] (c1 c2 d : α)
+    (h1 : 0 ≤ c1) (h2 : 0 ≤ c2) (hd : 0 ≤ d) :
+    @trapezoid α (fieldNum α) c1 c2 d = d * (c1 + c2) / 2 ∧ 0 ≤ @trapezoid α (fieldNum α) c1 c2 d := by
+  constructor
+  · show (1 / 2 : α) * d * (c1 + c2) = d * (c1 + c2) / 2
+    ring
+  · show 0 ≤ (1 / 2 : α) * d * (c1 + c2)
+    exact mul_nonneg (mul_nonneg (by norm_num) hd) (add_nonneg h1 h2)
+
+/-- `MechanicalWorkOptimizationObjective::motionCost` is `max(c(s2) - c(s1), 0) + w * distance`, non-negative when
+`w * distance` is. -/
+theorem mechanicalWork_eq [Field α] [LinearOrder α] [IsStrictOrderedRing α] (w : α) (sc : Pt α → α) (a b : Pt α) :
+    @mcWork α (fieldNum α) w sc a b = max (sc b - sc a) 0 + w * @rvDist α (fieldNum α) a b ∧
+    (0 ≤ w * @rvDist α (fieldNum α) a b → 0 ≤ @mcWork α (fieldNum α) w sc a b) := by
+  have e : @mcWork α (fieldNum α) w sc a b =
+      (if decide (sc b - sc a < 0) = true then 0 else sc b - sc a) + w * @rvDist α (fieldNum α) a b := rfl
+  have hmax : (if decide (sc b - sc a < 0) = true then (0 : α) else sc b - sc a) = max (sc b - sc a) 0 := by
+    simp only [decide_eq_true_eq]
+    split
+    · rename_i h; exact (max_eq_right (le_of_lt h)).symm
+    · rename_i h; exact (max_eq_left (not_lt.mp h)).symm
+  rw [e, hmax]
+  exact ⟨rfl, fun h => add_nonneg (le_max_right _ _) h⟩
+
+/-- `MultiOptimizationObjective::motionCost` is the weighted sum of the components' motion costs. -/
+theorem multiObjective_weighted_sum [Field α] [LinearOrder α] (comps : List (α × (Pt α → Pt α → α))) (a b : Pt α) :
+    @mcMulti α (fieldNum α) comps a b = (comps.map (fun p => p.1 * p.2 a b)).sum := by
+  have gen : ∀ (l : List (α × (Pt α → Pt α → α))) (acc : α),
+      l.foldl (fun c p => c + p.1 * p.2 a b) acc = acc + (l.map (fun p => p.1 * p.2 a b)).sum := by
+    intro l
+    induction l with
+    | nil => intro acc; simp
+    | cons p rest ih => intro acc; simp only [List.foldl_cons, List.map_cons, List.sum_cons]; rw [ih]; ring
+  have e : @mcMulti α (fieldNum α) comps a b = comps.foldl (fun c p => c + p.1 * p.2 a b) 0 := rfl
+  rw [e, gen, zero_add]
+
+example : @trapezoid ℚ (fieldNum ℚ) 1 3 2 = 4 := by
+  show (1 / 2 : ℚ) * 2 * (1 + 3) = 4
+  norm_num
+
+end ObjectiveLaws
+
 /-! ## Round 3: `geometric::RRTstar` (default settings) inside the model
 
 `run o sp (St.init o sp) ops` is the planner after ANY history `ops` of added start states, oracle answers,
@@ -294,24 +411,37 @@ theorem rrtstar_optimized_flag {o : Obj σ α} (L : Laws o) (sp : Space σ δ) (
   | none => rfl
   | some g => rw [hb] at ha; simp at ha
 
-/-- PARTIAL. Full statement wanted: for every `ops`, an exact report has
-`optimized = isSatisfied storedCost`.  Proved here under the hypothesis that the incumbent bookkeeping
-is in sync (`bestCost_` is the best goal motion's current cost) — which the lock-step run and the
-oracle check on every real run (`stored == bestCost_`), but which is not yet proved for every script
-(it needs: costs only improve under `updateChildCosts`, and a linear order on costs). -/
-theorem rrtstar_optimized_flag_partial {o : Obj σ α} (s : St σ α δ) (r : Report σ α δ) (h : report o s = some r)
-    (hexact : r.approximate = false)
-    (hsync : ∀ g gm, s.bestGoal = some g → s.motions[g]? = some gm → gm.cost = s.bestCost) :
-    r.optimized = o.isSatisfied r.storedCost := by
+/-- the incumbent bookkeeping is in sync in EVERY reachable state: `bestCost_` is the current cost of
+`bestGoalMotion_` (the infinite cost when there is none), and `bestGoalMotion_` is one of `goalMotions_`.
+(`Laws2`: additionally, extending two costs by the same cost never reverses "not better" — so costs only improve
+under rewiring, `applyRewire_notWorse` — and costs that do not beat each other are equal.) -/
+theorem rrtstar_best_cost_sync {o : Obj σ α} (L : Laws2 o) (sp : Space σ δ) (ops : List (Op σ δ)) :
+    Sync o (run o sp (St.init o sp) ops) ∧
+    ∀ g : Nat, (run o sp (St.init o sp) ops).bestGoal = some g → g ∈ (run o sp (St.init o sp) ops).goalMotions :=
+  run_binv L sp _ ops (init_inv o sp) (init_binv o sp)
+
+/-- FULL (was `rrtstar_optimized_flag_partial`): for every history, an EXACT solution registered by `solve()` is
+marked as meeting the objective exactly when its stored cost satisfies the threshold; an approximate one is flagged
+`isSatisfied(infiniteCost())`. -/
+theorem rrtstar_optimized_flag_exact {o : Obj σ α} (L : Laws2 o) (sp : Space σ δ) (ops : List (Op σ δ)) (r : Report σ α δ)
+    (h : report o (run o sp (St.init o sp) ops) = some r) :
+    (r.approximate = false → r.optimized = o.isSatisfied r.storedCost) ∧
+    (r.approximate = true → r.optimized = o.isSatisfied o.infinite) := by
+  refine ⟨?_, (rrtstar_optimized_flag L.base sp ops r h).2.2.1⟩
+  intro hexact
+  obtain ⟨hs, _⟩ := rrtstar_best_cost_sync L sp ops
   obtain ⟨h1, h2, n, nm, h3, h4, h5, _⟩ := report_spec h
   rw [h2] at hexact
-  cases hb : s.bestGoal with
+  unfold Sync at hs
+  cases hb : (run o sp (St.init o sp) ops).bestGoal with
   | none => rw [hb] at hexact; simp at hexact
   | some g =>
-    rw [hb] at h3
+    rw [hb] at h3 hs
     simp only [Option.some.injEq] at h3
     subst h3
-    rw [h1, h5, hsync g nm hb h4]
+    obtain ⟨gm, hgm, hc⟩ := hs
+    rw [h4] at hgm; cases hgm
+    rw [h1, h5, hc]
 
 /-- the cost invariant holds in EVERY reachable state (every script, interruption point, continued solve):
 a start has the identity cost; every other motion's `incCost` is `motionCost(parent.state, state)` (for an
@@ -361,6 +491,38 @@ theorem rrtstar_rewire_never_beats_ancestor {o : Obj σ α} (L : Laws o) {a c : 
 def natObj : Obj Nat Nat :=
   { identity := 0, infinite := 1000000, combine := (· + ·), better := fun a b => decide (a < b),
     motionCost := fun a b => (a - b) + (b - a), symmetric := true, threshold := 0 }
+
+/-- an additive objective over an ordered monoid with a top element. -/
+def addObj {σ : Type} [AddCommMonoid α] [LinearOrder α] (mc : σ → σ → α) (sym : Bool) (thr inf : α) : Obj σ α :=
+  { identity := 0, infinite := inf, combine := (· + ·), better := fun a b => decide (a < b), motionCost := mc,
+    symmetric := sym, threshold := thr }
+
+/-- every additive objective with non-negative motion costs (path length, state-cost integral, mechanical work,
+weighted sums of these) over a linearly ordered additive monoid with a greatest element obeys all the laws the RRT*
+theorems assume — they are not vacuous. -/
+theorem laws_additive {σ : Type} [AddCommMonoid α] [LinearOrder α] [IsOrderedAddMonoid α] (mc : σ → σ → α) (sym : Bool)
+    (thr inf : α) (hmc : ∀ x y, 0 ≤ mc x y) (hinf : ∀ a, a ≤ inf) (hsym : sym = true → ∀ x y, mc x y = mc y x) :
+    Laws2 (addObj mc sym thr inf) where
+  base :=
+    { swo := isSWO_of_linearOrder
+      id_right := fun a => add_zero a
+      nonneg := fun a x y => by
+        simp only [addObj, decide_eq_false_iff_not, not_lt]
+        exact le_add_of_nonneg_right (hmc x y)
+      inf_worst := fun a => by
+        simp only [addObj, decide_eq_false_iff_not, not_lt]
+        exact hinf a
+      sym := hsym }
+  mono := fun a a' c h => by
+    simp only [addObj, decide_eq_false_iff_not, not_lt] at h ⊢
+    exact add_le_add h (le_refl c)
+  total := fun a b h1 h2 => by
+    simp only [addObj, decide_eq_false_iff_not, not_lt] at h1 h2
+    exact le_antisymm h2 h1
+
+/-- non-vacuity: path length on the line ℕ with costs in `ℕ∞`. -/
+example : Laws2 (addObj (fun a b : Nat => (((a - b) + (b - a) : Nat) : ℕ∞)) true 0 ⊤) :=
+  laws_additive _ _ _ _ (fun _ _ => zero_le) (fun _ => le_top) (fun _ x y => by rw [Nat.add_comm])
 
 example : CostOK natObj #[⟨0, none, 0, 0, [1], false⟩, ⟨3, some 0, 3, 3, [], false⟩] 1 := by
   intro m hm
